@@ -555,7 +555,7 @@ def check(prop, tier, seed):
             if not os.path.exists(gp) or open(gp).read() != open(os.path.join(COQ, 'Generated', fname)).read():
                 differs = True
         if differs and consts:
-            OVER = ['ConstantsCodec', 'ConstantsMethods', 'ConstantsAgent', 'ConstantsAgentNonce', 'ConstantsAgentRtt', 'CodeAgreePad', 'CodeAgreeFilter', 'CodeAgreeCodec', 'CodeAgreeRto', 'CodeAgreeRtt', 'CodeAgreeRaw', 'CodeAgreeReasm', 'CodeAgreeIter', 'CodeAgreeAttrs']
+            OVER = ['ConstantsCodec', 'ConstantsMethods', 'ConstantsAgent', 'ConstantsAgentNonce', 'ConstantsAgentRtt', 'CodeAgreePad', 'CodeAgreeFilter', 'CodeAgreeCodec', 'CodeAgreeRto', 'CodeAgreeRtt', 'CodeAgreeRaw', 'CodeAgreeReasm', 'CodeAgreeIter', 'CodeAgreeAttrs', 'CodeAgreeIntegrity']
 
             def is_over(x):
                 return x.startswith('Generated.') or (x.startswith('Proofs.') and x[len('Proofs.'):] in OVER)
